@@ -32,7 +32,9 @@ def set_task(stubs=None, loops=None):
     return TASK
 
 class Dispatcher:
-    """T2: wraps a function of the repository; identity preserving; body or contract stub per task."""
+    """T2: wraps a function of the repository; identity preserving; body or contract stub per task.
+    key/body live in slots so that functools.wraps(other_dispatcher) (which copies __dict__) cannot clobber them."""
+    __slots__ = ('key', 'body', '__dict__', '__weakref__')
     def __init__(self, key, body):
         self.key = key; self.body = body
         functools.update_wrapper(self, body)
@@ -314,7 +316,11 @@ class Loader:
             mod = self.stubs.get(name) or self.stubs[root]
             if name != root and name not in self.stubs:
                 m = self.stubs[root]
-                for part in name.split('.')[1:]: m = getattr(m, part)
+                try:
+                    for part in name.split('.')[1:]: m = getattr(m, part)
+                except AttributeError:
+                    # an internal lazy import of the real library (e.g. numpy._core._dtype from dtype.__str__)
+                    return importlib.__import__(name, globals, locals, fromlist, level)
                 return m if fromlist else self.stubs[root]
             return mod
         if root == 'scared':
